@@ -38,7 +38,7 @@ typedef struct {
 
 typedef struct {
     /* live case */
-    uint64_t idx_cur; int in_case; int cur_nontrivial; uint64_t cur_key; int cur_has_key;
+    uint64_t idx_cur; int in_case; int in_prologue; int cur_nontrivial; uint64_t cur_key; int cur_has_key;
     char desc[DESC_LEN]; char feature[128];
     unsigned cur_budget_ms;
     /* resume protocol */
@@ -166,6 +166,10 @@ void mc_desc(const char* fmt, ...) {
     va_list ap; va_start(ap, fmt); vsnprintf(S->desc, DESC_LEN, fmt, ap); va_end(ap);
     if (g_only_active) printf("CASE idx=%llu %s\n", (unsigned long long)S->idx_cur, S->desc);
 }
+/* Code that every shard runs before its first case (warm-up of caches, building shared seeds).  A crash of the code under
+ * test there is a finding (key <crash key>.in-prologue) that ends the shard, not an error of the harness. */
+void mc_prologue(const char* what) { snprintf(S->desc, DESC_LEN, "prologue: %s", what); S->in_prologue = 1; }
+void mc_prologue_end(void) { S->in_prologue = 0; }
 void mc_feature(const char* fmt, ...) {
     va_list ap; va_start(ap, fmt); vsnprintf(S->feature, sizeof S->feature, fmt, ap); va_end(ap);
 }
@@ -556,6 +560,12 @@ int mc_main(int argc, char** argv, const char* harness, void (*enumerate)(void))
             unlink(errpath); write_result(); return 3;
         }
         /* abnormal termination inside (or outside) a case */
+        if (!S->in_case && S->in_prologue) {
+            char key[KEY_LEN], det[DETAIL_LEN]; classify_crash(errpath, status, key, sizeof key, det, sizeof det);
+            size_t kl = strlen(key); snprintf(key + kl, sizeof key - kl, ".in-prologue"); record_fail(key, det); S->crashes++; S->crash_cap_hit = 1;
+            if (S->cur_stage >= 0) S->stages[S->cur_stage].complete = 0;
+            break;
+        }
         if (!S->in_case) {
             FILE* f = fopen(errpath, "r"); if (f) { char b[512]; while (fgets(b, sizeof b, f)) fputs(b, stderr); fclose(f); }
             snprintf(S->harness_error, sizeof S->harness_error, "child died outside a case (status %d) after case %llu", status, (unsigned long long)S->idx_cur);
